@@ -373,7 +373,11 @@ class Model(object):
 def _dfs(g, top):
     # just keep source and target of edge relations
     q = {
-        var: {target for _, _, target in triples if target in g}
+        var: {
+            target
+            for _, role, target in triples
+            if role != CONCEPT_ROLE and target in g
+        }
         for var, triples in g.items()
     }
     # make edges bidirectional
